@@ -2180,6 +2180,18 @@ package analysis
 //@   loop 1: invariant allResolve(s, parameters) ==> forall i in 0..idx :: mapKeyFromParam(effParam(s, parameters[i])) in dom(res) && (exists j in i..idx :: res[mapKeyFromParam(effParam(s, parameters[i]))] == effParam(s, parameters[j]) && mapKeyFromParam(effParam(s, parameters[j])) == mapKeyFromParam(effParam(s, parameters[i])))
 //@   loop 1: invariant allResolve(s, parameters) ==> forall k in dom(res) :: old(k in dom(res)) && res[k] == old(res[k]) || (exists i in 0..idx :: k == mapKeyFromParam(effParam(s, parameters[i])))
 
+//@ func (s *Spec) paramsAsMap(parameters, res, callmeOnError)
+//@   aspect cbproto
+//@   requires s != nil && res != nil && callmeOnError != nil && !cbStop
+//@   modifies map res, ghost cbCalled, ghost cbStop
+//@   ensures !cbStop ==> forall i in 0..len(parameters) :: resolvesOK(s, parameters[i]) ==> mapKeyFromParam(effParam(s, parameters[i])) in dom(res)
+//@   ensures cbStop ==> exists n in 0..len(parameters) :: !resolvesOK(s, parameters[n]) && (forall k in dom(res) :: (old(k in dom(res)) && res[k] == old(res[k])) || (exists i in 0..n :: entryFor(s, parameters[i], k, res[k])))
+//@   ensures forall k in dom(res) :: (old(k in dom(res)) && res[k] == old(res[k])) || (exists i in 0..len(parameters) :: resolvesOK(s, parameters[i]) && entryFor(s, parameters[i], k, res[k]))
+//@   loop 1: modifies map res, ghost cbCalled, ghost cbStop
+//@   loop 1: invariant callmeOnError == old(callmeOnError) && !cbStop
+//@   loop 1: invariant forall j in 0..idx :: resolvesOK(s, parameters[j]) ==> mapKeyFromParam(effParam(s, parameters[j])) in dom(res)
+//@   loop 1: invariant forall k in dom(res) :: (old(k in dom(res)) && res[k] == old(res[k])) || (exists i in 0..idx :: resolvesOK(s, parameters[i]) && entryFor(s, parameters[i], k, res[k]))
+
 //@ fun noOp(s *Spec, method string, path string) bool = !(path in dom(docPaths(s)) && opAtM(docPaths(s)[path], strings.ToUpper(method)) != nil)
 //@ fun fromLists(s *Spec, a []spec.Parameter, b []spec.Parameter, k string, v spec.Parameter) bool = (exists i in 0..len(a) :: entryFor(s, a[i], k, v)) || (exists i in 0..len(b) :: entryFor(s, b[i], k, v))
 
